@@ -326,7 +326,10 @@ def mle_container_job(n, container, int_counts=False):
         C[0][0] = c00
         A = funcs.np_array(C, dtype=int if int_counts else float)
         A0 = A.copy()
-        arg = ssp.CLASSES[container](A)
+        if container == 'ndarray-F':          # column-major dense counts (np.asfortranarray, a transposed view, csc.toarray())
+            arg = A.T.copy().T
+        else:
+            arg = ssp.CLASSES[container](A)
         exc = None
         try:
             Cout, T, pi = bounded(lambda: b.mle(arg))
@@ -358,7 +361,10 @@ def mle_container_job(n, container, int_counts=False):
             Cc = [[float(ev(model, x)) if isinstance(x, SVal) else float(x) for x in row] for row in C]
             out = {'inputs': {'builder': 'mle (one sweep)', 'counts': Cc, 'container': container, 'element_type': 'int64' if int_counts else 'float64'}}
             import scipy.sparse
-            Ac = getattr(scipy.sparse, container + '_matrix')(np.array(Cc).astype(int) if int_counts else np.array(Cc))
+            if container == 'ndarray-F':
+                Ac = np.asfortranarray(np.array(Cc))
+            else:
+                Ac = getattr(scipy.sparse, container + '_matrix')(np.array(Cc).astype(int) if int_counts else np.array(Cc))
             dn2 = lambda x: np.asarray(x.toarray() if hasattr(x, 'toarray') else x)
             with core.concrete_mode():
                 try:
@@ -381,7 +387,8 @@ def mle_container_job(n, container, int_counts=False):
             return PathOut([('no-exception', False)], {}, witness, exc=type(exc).__name__,
                            desc='raises %s: %s' % (type(exc).__name__, str(exc)[:100]))
         obs = oracle(C, Cl, Tl, pil, Trl, pirl, type_ok)
-        obs.append(('caller-matrix-unmodified', conj([x == y for x, y in zip(arg.toarray().cells(), A0.cells())])))
+        now = arg.toarray() if hasattr(arg, 'toarray') else arg
+        obs.append(('caller-matrix-unmodified', conj([x == y for x, y in zip(now.cells(), A0.cells())])))
         return PathOut(obs, {'C': Cd, 'T': Td, 'pi': pi}, witness, desc='mle (one sweep) n=%d %s' % (n, container))
     return path
 
@@ -432,6 +439,9 @@ def jobs(tier):
         add('normalize,n=2,%s,float,prior,no-eq' % fmt, which='normalize', n=2, eq=False, prior=True, container=fmt)
         if not q or fmt in ('csr', 'lil'):
             add('normalize,n=2,%s,float,eq' % fmt, which='normalize', n=2, eq=True, container=fmt)
+        if fmt == 'csr':
+            J.append(dict(module='harness.C04', func='mle_container_job', name='mle[n=2,column-major ndarray,one sweep]', kwargs=dict(n=2, container='ndarray-F'),
+                          sig_prefix='builders', deadline_s=250 if q else 1500, timeout_ms=40000 if q else 200000, tol=1e-5))
         if not q or fmt in ('csr', 'lil', 'coo'):
             J.append(dict(module='harness.C04', func='mle_container_job', name='mle[n=2,%s,one sweep]' % fmt, kwargs=dict(n=2, container=fmt),
                           sig_prefix='builders', deadline_s=250 if q else 1500, timeout_ms=40000 if q else 200000, tol=1e-5))
